@@ -27,6 +27,7 @@ import (
 	"github.com/refraction-networking/conjure/pkg/core"
 	"github.com/refraction-networking/conjure/pkg/phantoms"
 	"github.com/refraction-networking/conjure/pkg/station/geoip"
+	"github.com/refraction-networking/conjure/pkg/station/liveness"
 	"github.com/refraction-networking/conjure/pkg/station/log"
 	"github.com/refraction-networking/conjure/pkg/transports/wrapping/min"
 	"github.com/refraction-networking/conjure/pkg/transports/wrapping/prefix"
@@ -71,6 +72,10 @@ type c09Live struct {
 	probes int64
 	gate   chan struct{} // when non-nil PhantomIsLive blocks until it is closed (pipeline tests)
 	done   int64
+	// the probe takes this long (race stress): the steps of an ingest behind the probe — share decision,
+	// phantom blocklist, validation — then start at a moment that is unrelated to the worker's last
+	// acquisition of any lock; time.Sleep orders nothing for the race detector
+	pause time.Duration
 }
 
 func (l *c09Live) PhantomIsLive(addr string, port uint16) (bool, error) {
@@ -78,6 +83,9 @@ func (l *c09Live) PhantomIsLive(addr string, port uint16) (bool, error) {
 	verifhook.Yield("ingest:probe")
 	if l.gate != nil {
 		<-l.gate
+	}
+	if l.pause > 0 {
+		time.Sleep(l.pause)
 	}
 	atomic.AddInt64(&l.done, 1)
 	return l.live[addr], nil
@@ -180,6 +188,7 @@ type c09Result struct {
 	model, impl string
 	choices     [][]int // runnable sets at each step (for the DFS)
 	slow        bool    // the run took longer than c09SlowLimit: its dumped creation times are not reliable
+	blocked     bool    // a thread did not come back from a step (deadlock): reported, the run is not compared
 }
 
 // c09Case records a run as a correspondence case unless it was too slow for its dump to be exact.
@@ -338,6 +347,7 @@ func runC09(out *vlib.Out, sc *c09Scenario, prefixSched []int) c09Result {
 	}
 
 	// ---- run the schedule
+	blockedRun := false
 	doneTh := make([]bool, n)
 	stepNo := make([]int, n)          // steps taken by each thread
 	sweepSteps := make([][]string, n) // per sweeper: what each of its removal steps removed ("" = nothing)
@@ -369,7 +379,21 @@ func runC09(out *vlib.Out, sc *c09Scenario, prefixSched []int) c09Result {
 		nev := len(events)
 		e, ok := s.step(pick)
 		if !ok {
-			fail("C09:thread-blocked", fmt.Sprintf("thread %d did not reach its next scheduling point within 10 s", pick))
+			blockedRun = true
+			buf := make([]byte, 1<<20)
+			dump := string(buf[:runtime.Stack(buf, true)])
+			var keep []string
+			for _, g := range strings.Split(dump, "\n\n") {
+				if strings.Contains(g, "sync.(*RWMutex)") || strings.Contains(g, "sync.(*Mutex)") {
+					keep = append(keep, g)
+				}
+			}
+			short := strings.Join(keep, "\n\n")
+			if len(short) > 4000 {
+				short = short[:4000]
+			}
+			out.OracleFail("C09:thread-blocked", fmt.Sprintf("thread %d did not reach its next scheduling point within 10 s (a deadlock: under the controlled scheduler nothing else runs)", pick),
+				fmt.Sprintf("scenario=%s schedule=%v ; goroutines waiting for a mutex: %s", sc.name, sched, strings.ReplaceAll(short, "\n", " ⏎ ")))
 			break
 		}
 		if e.pan != nil {
@@ -519,7 +543,7 @@ func runC09(out *vlib.Out, sc *c09Scenario, prefixSched []int) c09Result {
 	}
 	model := fmt.Sprintf("conc|600|21600|1,4|%s|%s|%s", strings.Join(mpre, ";"), strings.Join(mths, ";"), strings.Join(ss, ","))
 	impl := strings.Join(events, ";") + "|D:" + strings.Join(d, "/") + "|T:" + strings.Join(t, "/") + "|bad=0|done=" + vlib.B(allDone)
-	return c09Result{model: model, impl: impl, choices: choices, slow: time.Since(t0) >= c09SlowLimit || ambiguous}
+	return c09Result{model: model, impl: impl, choices: choices, slow: time.Since(t0) >= c09SlowLimit || ambiguous, blocked: blockedRun}
 }
 
 // c09Collected: which keys a sweeper would collect — the registrations of the set-up that are expired
@@ -608,7 +632,11 @@ func TestVerifC09(t *testing.T) {
 			var sched []int
 			fmt.Sscanf(line, "scenario=%s", &name)
 			if i := strings.Index(line, "schedule=["); i >= 0 {
-				for _, x := range strings.Fields(strings.TrimSuffix(line[i+10:], "]")) {
+				body := line[i+10:]
+				if j := strings.Index(body, "]"); j >= 0 {
+					body = body[:j]
+				}
+				for _, x := range strings.Fields(body) {
 					var v int
 					fmt.Sscan(x, &v)
 					sched = append(sched, v)
@@ -617,7 +645,9 @@ func TestVerifC09(t *testing.T) {
 			for _, sc := range c09Scenarios() {
 				if sc.name == name {
 					res := runC09(out, sc, sched)
-					c09Case(out, res)
+					if !res.blocked {
+						c09Case(out, res)
+					}
 					fmt.Println("REPLAY", line)
 					fmt.Println("REPLAY model-line:", res.model)
 					fmt.Println("REPLAY impl      :", res.impl)
@@ -632,13 +662,29 @@ func TestVerifC09(t *testing.T) {
 		}
 		return
 	}
+	// A schedule that deadlocks costs the 10 s of the step watchdog and leaves its goroutines behind; the
+	// schedules after it in the same scenario would mostly run into the same lock. After a deadlock the
+	// scenario is left, after two the remaining scenarios are skipped: the finding has been reported with
+	// its schedule and the goroutine dump, the later phases (pipeline, environment) use managers of their own.
+	stuck := 0
 	for _, sc := range c09Scenarios() {
+		if stuck >= 2 {
+			out.Note("scenario " + sc.name + " skipped: two scenarios have already ended in a deadlock")
+			out.Count("scenario-skipped-after-deadlock")
+			continue
+		}
 		count := 0
 		exhaustive := true
 		// stateless DFS over schedules
 		var prefixSched []int
 		for {
 			res := runC09(out, sc, prefixSched)
+			if res.blocked {
+				stuck++
+				exhaustive = true // no random schedules either
+				out.Count("scenario-left-after-deadlock:" + sc.name)
+				break
+			}
 			c09Case(out, res)
 			out.Count("scenario:" + sc.name)
 			count++
@@ -686,6 +732,11 @@ func TestVerifC09(t *testing.T) {
 					p[j] = -1
 				}
 				res := runC09Random(out, sc, r)
+				if res.blocked {
+					stuck++
+					out.Count("scenario-left-after-deadlock:" + sc.name)
+					break
+				}
 				c09Case(out, res)
 				out.Count("scenario-random:" + sc.name)
 			}
@@ -705,7 +756,7 @@ func runC09Random(out *vlib.Out, sc *c09Scenario, r *vlib.Rand) c09Result {
 	var prefix []int
 	for {
 		res := runC09(out, sc, prefix)
-		if len(prefix) >= len(res.choices) {
+		if res.blocked || len(prefix) >= len(res.choices) {
 			return res
 		}
 		// extend the prefix by a random runnable thread at the next undecided position
@@ -1002,7 +1053,7 @@ func TestVerifC09Race(t *testing.T) {
 	out := vlib.Open("C09race")
 	defer out.Close()
 	replay := "go test -tags verif -race -run TestVerifC09Race ./pkg/station/lib/"
-	lv := &c09Live{live: map[string]bool{}}
+	lv := &c09Live{live: map[string]bool{}, pause: 150 * time.Microsecond}
 	rm := c09Manager(lv)
 	rd := rm.registeredDecoys
 	// ---- oracle that needs real parallelism: visible only after validation. What a lookup returns has
@@ -1036,8 +1087,11 @@ func TestVerifC09Race(t *testing.T) {
 			for time.Now().Before(stop) {
 				ph, sec, tr := r.Intn(2), r.Intn(3), r.Intn(2)
 				switch g % 3 {
-				case 0: // ingest worker
-					rm.ingestRegistration(c09Reg(ph, sec, tr, r.Bool(), "1.2.3.4:443"))
+				case 0: // ingest worker; registrations of every source (those from the decoy registrar go on to the share decision)
+					d := c09Reg(ph, sec, tr, r.Bool(), "1.2.3.4:443")
+					src := c09Sources[r.Intn(len(c09Sources))]
+					d.RegistrationSource = &src
+					rm.ingestRegistration(d)
 				case 1: // connection handler
 					d := c09Reg(ph, sec, tr, true, "")
 					if reg, ok := rd.getRegistrations(d.PhantomIp)[rd.transports[d.Transport].GetIdentifier(d)]; ok {
@@ -1248,12 +1302,39 @@ func c09ExactCounts(out *vlib.Out, replay string) {
 // then hand it to OnReload, while workers and connection handlers are running.
 func c09ReloadLoop(rm *RegistrationManager, stop time.Time, wg *sync.WaitGroup) {
 	defer wg.Done()
-	for time.Now().Before(stop) {
-		conf := &RegConfig{EnableIPv4: true, EnableIPv6: true, CovertBlocklistSubnets: []string{"10.0.0.0/8"}, PhantomBlocklist: []string{"192.0.2.0/24"}}
-		conf.ParseBlocklists()
+	for i := 0; time.Now().Before(stop); i++ {
+		conf := c09ReloadConf(i)
+		_ = conf.ParseBlocklists()
 		c09Reload(rm, conf)
-		time.Sleep(time.Millisecond)
+		time.Sleep(200 * time.Microsecond)
 	}
+}
+
+var c09Sources = []pb.RegistrationSource{pb.RegistrationSource_API, pb.RegistrationSource_Detector, pb.RegistrationSource_DetectorPrescan,
+	pb.RegistrationSource_BidirectionalAPI, pb.RegistrationSource_DNS, pb.RegistrationSource_BidirectionalDNS, pb.RegistrationSource_Unspecified}
+
+// c09ReloadConf: the configuration the i-th reload installs. Two configurations alternate that differ in
+// EVERY field of RegConfig, the reloadable ones and those a reload is documented to leave alone (worker
+// count, the sharing switch and its endpoint — strings of different lengths —, the address families, the
+// liveness settings): whatever a reload copies into the running manager is really written, so that a field
+// a worker reads without the guarding lock shows up under the race detector. Both let the stress's
+// registrations (covert 1.2.3.4, phantoms 10.0.0.x / 2001:db8::1) through, so the workers keep reaching
+// the later steps of an ingest. The endpoint is a closed loopback port.
+func c09ReloadConf(i int) *RegConfig {
+	if i%2 == 0 {
+		return &RegConfig{Config: &liveness.Config{}, IngestWorkerCount: 7,
+			EnableShareOverAPI: true, PreshareEndpoint: "http://127.0.0.1:9/api/register-shared-long-endpoint-name",
+			EnableIPv4: true, EnableIPv6: true,
+			CovertBlocklistSubnets: []string{"172.16.0.0/12"}, CovertBlocklistPublicAddrs: false,
+			CovertAllowlistSubnets: nil, CovertBlocklistDomains: []string{".*blocked\\.example$"},
+			PhantomBlocklist: []string{"192.0.2.0/24"}, ConnectingStats: c09NoConnStats{}}
+	}
+	return &RegConfig{Config: &liveness.Config{}, IngestWorkerCount: 3,
+		EnableShareOverAPI: false, PreshareEndpoint: "",
+		EnableIPv4: false, EnableIPv6: false,
+		CovertBlocklistSubnets: []string{"169.254.0.0/16", "fe80::/10"}, CovertBlocklistPublicAddrs: true,
+		CovertAllowlistSubnets: []string{"1.2.3.0/24"}, CovertBlocklistDomains: nil,
+		PhantomBlocklist: []string{"198.51.100.0/24", "203.0.113.0/24"}, ConnectingStats: nil}
 }
 
 // c09ValidMsg builds a registration message (as it arrives over ZMQ) that parses, validates and
